@@ -104,7 +104,7 @@ class Style:
         return [' ', '', '  ', '\n  '][self.pick(4)]
 
 
-def render_verilog(nl, lib, seed):
+def render_verilog(nl, lib, seed, simple=False):
     """-> (text, truth) with truth = dict(ports=[names in io order], pi=[name per PI], po=[name per PO], st=[instance name per state element])"""
     L = LIBS[lib]
     st = Style(seed)
@@ -169,7 +169,7 @@ def render_verilog(nl, lib, seed):
     alias = {}          # src -> [alias wire names] (assign chains: a1 = net, a2 = a1, ...)
     alias_assigns = []
     for src in sorted(net):
-        if st.pick(4) == 0:
+        if st.pick(4) == 0 and not simple:
             chain = [f'al{len(alias)}_{j}' for j in range(1 + st.pick(3))]
             alias[src] = chain
             if st.pick(2): wire_decl.append((chain[0], None))
@@ -199,8 +199,10 @@ def render_verilog(nl, lib, seed):
             decl_stmts.append(f'{kind} {r}{nm}{st.sp()};')
     decl('input', pi_decls); decl('output', po_decls); decl('wire', wire_decl)
     inst_names = {}
+    insts = []          # what was instantiated: name, cell, {input pin: src}, {output pin: src}
+
     def iname(prefix, k):
-        nm = [f'{prefix}{k}', f'U{prefix}{k}', f'{prefix}_{k}_reg', f'top/{prefix}[{k}]'][st.pick(4)]
+        nm = [f'{prefix}{k}', f'U{prefix}{k}', f'{prefix}_{k}_reg', f'{prefix}_reg[{k}]' if simple else f'top/{prefix}[{k}]'][st.pick(4)]
         return nm
     def inst(cell, name, conns):
         order = list(conns)
@@ -228,7 +230,7 @@ def render_verilog(nl, lib, seed):
         scan = None
         if L['sdff'] and d is not None and d[0] == 'g':
             g = nl['g'][int(d[1:])]
-            if g['f'] == 'MUX21' and len(rd.get(d, [])) == 1 and st.pick(2):
+            if g['f'] == 'MUX21' and len(rd.get(d, [])) == 1 and st.pick(2) and not simple:
                 scan = g
         qn = f'n{k}' in rd
         q = f's{k}' in rd
@@ -243,6 +245,7 @@ def render_verilog(nl, lib, seed):
         if q or st.pick(2): conns.append((pq, plain(net[f's{k}']) if q else None))
         if qn: conns.append((pqn, plain(net[f'n{k}'])))
         conns = [(p, v) for p, v in conns if not (v is None and p in (pq, pqn))]      # unconnected outputs are simply not mentioned
+        insts.append(dict(name=nm, cell=cell, ins={pd: d, pck: s.get('c')} if scan is None else {}, outs={pq: f's{k}' if q else None, pqn: f'n{k}' if qn else None}))
         inst(cell, nm, conns)
     for k, g in enumerate(nl['g']):
         if k in skip_gate:
@@ -255,7 +258,10 @@ def render_verilog(nl, lib, seed):
             conns.append((opin, plain(net[f'g{k}'])))
         elif st.pick(2):
             conns.append((opin, f'open_{k}'))
-        inst(cell, iname('g', k), conns)
+        gname = iname('g', k)
+        insts.append(dict(name=gname, cell=cell, ins={ipins[j]: (pins[j] if j < len(pins) else None) for j in range(n)},
+                          outs={opin: f'g{k}' if f'g{k}' in rd else None}))
+        inst(cell, gname, conns)
     # outputs that are not the net of their source: continuous assigns (single, concatenated, part select)
     todo = [k for k in range(len(nl['po'])) if k not in bound_po]
     assigns = []
@@ -308,7 +314,8 @@ def render_verilog(nl, lib, seed):
             ports_in_order += [f'{h}[{i}]' for i in range(rng[0], rng[1] + step, step)]
     text = f'// generated\n{st.sp()}module{st.ws()}top{st.sp()}({st.sp()}' + f'{st.sp()},{st.sp()}'.join(hdr) + f'{st.sp()}){st.sp()};\n' + \
            '\n'.join(f'{st.sp()}{s_}' for s_ in allst) + f'\nendmodule{st.ws()}\n'
-    return text, dict(ports=ports_in_order, pi=pi_names, po=po_names, st=st_names, skipped=sorted(skip_gate))
+    return text, dict(ports=ports_in_order, pi=pi_names, po=po_names, st=st_names, skipped=sorted(skip_gate), insts=insts,
+                      net={k_: tname(v) for k_, v in net.items()}, bound_po=sorted(bound_po))
 
 
 def render_bench(nl, seed):
